@@ -254,7 +254,7 @@ def fin_class(layout, n: int) -> str:
     if f["ps"] is None:
         return "in-frame-header"
     if not f["complete"]:
-        return "in-payload:" + tclass(f["t"])
+        return "in-payload:" + ("DATA" if f["t"] == T_DATA else "non-DATA-frame")
     t = tclass(f["t"])
     if t in ("DATA", "HEADERS"):
         return "boundary,last=" + t
@@ -741,8 +741,6 @@ def classify(case: Case, ref: Outcome, var: Outcome, diag=None):
         d, f = full.get(sid, (b"", False))
         lay = stream_layout(sid, d)
         c = ("msg" if lay[0] == "push" else lay[0]) + ":fin=" + (fin_class(lay, len(d)) if f else "none")
-        if sid in var.blocked_sids:
-            c += ",blocked"
         return c
 
     if ref.raised or var.raised:
